@@ -31,4 +31,10 @@ PROPS = {
         quick=dict(runs=[dict(tests="^TestC05$", checks=250)], min_nontrivial=10),
         thorough=dict(runs=[dict(tests="^TestC05$", checks=600, shards=16, timeout=3000)], min_nontrivial=300),
     ),
+    "C03": dict(
+        rule="fresh-sync worlds: 1..6 ingresses over 3 hosts (+ default host, spec.defaultBackend), 7 paths, all path types and the path-type annotation, named/numeric/missing service ports, missing services/endpoints/secrets, TLS blocks, drain-support on/off, --default-backend-service unset/valid/dangling, shards 0/2; every request of the alphabet (declared and one undeclared host, host:port and upper-case spellings, declared paths and neighbours, http and https) is routed by the evaluator of the written files and compared with the documented routing rules computed from the objects; the servers of each reached backend are compared with the ready / not-ready endpoints of the service port. Non-trivial = a host is shared by >= 2 ingresses or default-host rules exist; distinct by digest of the world.",
+        assumptions=HAPCFG_ASSUMPTIONS + ["documented routing only: no regex paths, aliases, header matches, redirects, ssl-passthrough", "a rule whose service or port does not exist configures nothing and does not own its path", "in-backend redirects (ssl-redirect) are ignored: the observable is the routing destination"],
+        quick=dict(runs=[dict(tests="^TestC03$", checks=400)], min_nontrivial=50),
+        thorough=dict(runs=[dict(tests="^TestC03$", checks=2500, shards=16, timeout=3000)], min_nontrivial=5000),
+    ),
 }
